@@ -2,8 +2,10 @@
 
 gen(ctx)   regenerates coq/gen/{CurveTables,DocTable,Primes,CurveNames}.v from the
            CURRENT tree: the two PROBLEMATIC_* arrays, the curve dispatch, the
-           guard comparisons/offsets and the template-name literals are parsed
-           out of the three pass sources; the doc table and the CLI help out of
+           guard comparisons/offsets and the template-name literals are read
+           STRICTLY out of the three pass sources and constants.rs (the whole
+           token stream of every anchored item must match a template with named
+           holes, lib/props/c11shape.py; anything left over = `unrecognised`); the doc table and the CLI help out of
            doc/analysis_passes.md and cli/src/main.rs; primes and the
            accept/reject table of Curve::from_str are obtained by EXECUTING the
            code through harness binary `curves`.
@@ -1319,7 +1321,12 @@ def run(ctx, proofs):
                 "of the prime's bit length, non-constant, prime-dependent or multiply checked (CS0014), plus the accepted curve spellings",
         "exhaustive": True,
         "exhaustive_part": "all 26 documented names x 3 curves; Num2Bits(n), Bits2Num(n), LessThan fed from Num2Bits(k) for all n,k in 0..300 x 3 curves; "
-                           "all %d case variants of the three curve names" % sum(len(case_variants(CANON[v])) for v in VARIANTS),
+                           "all %d case variants of the three curve names; %d sentinel sizes (every power of two up to 2^70, machine-integer "
+                           "boundaries +-1, 5000 +-1, sizes at/around each documented prime) for Num2Bits, Bits2Num and LessThan-from-Num2Bits x 3 curves"
+                           % (sum(len(case_variants(CANON[v])) for v in VARIANTS), len(sentinel_sizes())),
+        "sentinel_sizes": len(sentinel_sizes()),
+        "anchored_source_items": len(info["sources"].get("shape", [])),
+        "anchored_source_items_matched": sum(1 for _, ok in info["sources"].get("shape", []) if ok),
         "files": len(files), "cli_runs": len(jobs) + names["count"], "instantiation_statements": instantiations,
         "template_name_universe": len(name_universe(doc["rows"])),
         "curve_spellings": names["count"], "curve_spellings_accepted_ascii": names["accepted"],
@@ -1334,8 +1341,12 @@ def run(ctx, proofs):
     ctx.assumptions += [
         "the abstraction of a generated .circom statement to the model's statement (type knowledge, call name, argument value knowledge, access "
         "path, printed right-hand side) is written by the generator in lib/props/C11.py; it is checked by the end-to-end comparison, not proved",
-        "value knowledge of size arguments comes from the tool's constant propagation (property C06); here it is exercised with literals, "
-        "local-variable arithmetic and constants that are only determined modulo the prime",
+        "value knowledge of size arguments comes from the tool's constant propagation (property C06); here it is exercised with literals "
+        "(dense range and large sentinels), every arithmetic/bitwise/comparison/ternary operator on literals, local-variable chains, compound "
+        "assignment, a variable assigned on both branches, and constants that are only determined modulo the prime",
+        "the strict source reader (lib/props/c11shape.py: tokenizer, template matcher, hand-written templates and inventories of the four "
+        "Rust files) is trusted to cut items correctly; what it guarantees is that every token of the anchored items is accounted for by "
+        "the template, and the behaviour of the items it does not anchor (report builders, Display/Debug of Curve) is not part of the model",
         "Circomlib's spelling of the documented names (Bits2Point_Strict, Point2Bits_Strict) is a fixed part of the specification (Spec.CurvesSpec.circomlib_spelling)",
         "non-ASCII --curve spellings are compared with Unicode upper-casing by test only; those accepted (e.g. `blſ12_381`) are noted, not violations",
         "the three documented primes are the constants of Spec.CurvesSpec (BN254 and BLS12-381 scalar fields in hexadecimal, Goldilocks as 2^64 - 2^32 + 1)",
